@@ -77,6 +77,10 @@ class StubRule(rule.Rule):
         if self.analyze_log is not None:
             self.analyze_log.append(self.unique_id)
         lReturn = []
+        self.real_lines = []
+        # the region handed to the engine starts `off` lines above the line the violation is reported on (as the
+        # regions of the real multi-line rules do): --fix_only selects by the REPORTED line
+        off = sum(map(ord, self.unique_id)) % 3
         iLine = 1
         lAll = oFile.lAllObjects
         for i, o in enumerate(lAll):
@@ -88,22 +92,23 @@ class StubRule(rule.Rule):
                 else:
                     hit = True
                 if hit:
-                    lReturn.append(toi_tokens.New(i, iLine, [o]))
+                    lReturn.append(toi_tokens.New(i, max(1, iLine - off), [o]))
+                    self.real_lines.append(iLine)
             if isinstance(o, parser.carriage_return):
                 iLine += 1
         return lReturn
 
     def _analyze(self, lToi):
-        self.found_now = [oToi.get_line_number() for oToi in lToi]
-        for oToi in lToi:
+        self.found_now = list(self.real_lines)
+        for oToi, iLine in zip(lToi, self.real_lines):
             v = oToi.get_tokens()[0].get_value()
             if self.kind == "S":
                 sSolution = 'Change "%s" to "%s"' % (v, self.arg)
             elif self.kind == "I":
                 sSolution = 'Add space after "%s"' % v
             else:
-                sSolution = "Remove token on line %d" % oToi.get_line_number()
-            self.add_violation(violation.New(oToi.get_line_number(), oToi, sSolution))
+                sSolution = "Remove token on line %d" % iLine
+            self.add_violation(violation.New(iLine, oToi, sSolution))
 
     def _fix_violation(self, oViolation):
         if self.fixv_log is not None:
